@@ -6,7 +6,7 @@ from pvlib import hx, unhx
 LEVEL = "proof"
 RULE = ("real bin/shard vs the Lean model: shard counts 1..12 and 100, both naming modes (--prefix/--number, explicit names), key "
         "specs {none, 1, 2, 1-2} x delimiters tab/space, compression none/gzip/bzip2, empty input and inputs that leave shards "
-        "empty; every output file is expanded with an independent decoder (Python gzip/bz2 and the gzip/bzip2 command line tools) "
+        "empty, LF and CRLF line ends and a last line without terminator (input lines = the C02 records); every output file is expanded with an independent decoder (Python gzip/bz2 and the gzip/bzip2 command line tools) "
         "and compared with the model's file; oracle = partition / order / co-location / purity predicates evaluated on the tool's "
         "files; dedupe per shard vs dedupe of the whole; non-trivial = distinct (args, input)")
 ASSUMPTIONS = ["writer threads and compression are covered by C16 / C15; here their output is checked with independent decoders",
@@ -29,6 +29,14 @@ def decode_file(path, comp):
         return data, None
     except Exception as e:  # invalid stream
         return None, f"{comp} stream invalid ({len(raw)} bytes): {e!r}"
+
+
+def records(data):
+    """the C02 records of an input: split at LF, a final unterminated line counts, one trailing CR is stripped"""
+    parts = data.split(b"\n")
+    if parts and parts[-1] == b"":
+        parts.pop()
+    return [p[:-1] if p.endswith(b"\r") else p for p in parts]
 
 
 def run_shard(ctx, n, mode, spec, d, comp, data, key):
@@ -63,13 +71,20 @@ def run(ctx):
                 continue
             k = rng.choice([0, 1, 2, 5, 40, 300])
             lines = [rng.choice(pool_lines) if rng.random() < 0.7 else b"r%d" % rng.randrange(50) for _ in range(k)]
-            data = b"".join(l + b"\n" for l in lines)
+            # line ends: LF, CRLF on some or all lines, and a last line without terminator
+            crlf = rng.choice([0.0, 0.0, 0.3, 1.0])
+            data = b"".join(l + (b"\r\n" if rng.random() < crlf else b"\n") for l in lines)
+            if lines and rng.random() < 0.35:
+                data = data[:-2] if data.endswith(b"\r\n") else data[:-1]
             cases.append((n, rng.choice(["prefix", "names"]), rng.choice([None, None, "1", "2", "1-2"]), rng.choice(["\t", " "]), comp, data))
     # explicit empty-input and empty-shard cases for each compression
     for comp in ("none", "gzip", "bzip2"):
         cases.append((2, "names", None, "\t", comp, b""))
         cases.append((3, "prefix", None, "\t", comp, b"a\n"))
         cases.append((11, "prefix", "1", "\t", comp, b"a\tx\na\ty\nb\n"))
+        cases.append((2, "names", None, "\t", comp, b"first\nsecond\nlast line without newline"))
+        cases.append((1, "names", None, "\t", comp, b"only"))
+        cases.append((3, "prefix", "1", "\t", comp, b"a\tx\r\nb\ty\r\na\tz\r\n"))
     for (n, mode, spec, d, comp, data) in cases:
         key = (n, mode, spec, d, comp, data)
         argv, names, st, err = run_shard(ctx, n, mode, spec, d, comp, data, key)
@@ -98,11 +113,13 @@ def run(ctx):
                                    summary=f"shard -c {comp} into {n} files on {data[:40]!r}: {problems[0]}")
             continue
         # property predicates on the tool's own files
-        inp = data.split(b"\n")[:-1]
+        inp = records(data)
         outs = [f.split(b"\n")[:-1] for f in files]
         flat = sorted(l for o in outs for l in o)
         bad = None
-        if flat != sorted(inp):
+        if any(f and not f.endswith(b"\n") for f in files):
+            bad = "a file does not end with a line terminator (it contains something that is not a line): ..." + repr([f[-12:] for f in files if f and not f.endswith(b"\n")][0])
+        elif flat != sorted(inp):
             bad = "files do not contain every input line exactly once"
         else:
             for o in outs:
